@@ -34,8 +34,11 @@ ENTRY = dict(
                    "most num_qubits labels; with more labels it is an IndexError, EXCEPT on the list[Pauli] path with an empty list, which is "
                    "answered (c17_decompose_call_total/_crash); the label glue (Python labels of any type with dict-key equality, first key "
                    "object kept, the harness's Interner) is modelled and proved sound (c17_interning_contract, c17_interner_sound). "
-                   "Closed under the global context. The model is run against the implementation on 1500 generated cases per quick run "
-                   "(about 21000 thorough).",
+                   "Closed under the global context. The model is run against the implementation on 1620 generated cases per quick run "
+                   "(about 22500 thorough). Of these, 120 (1500) are a targeted HISTORY stream: a PauliList with a non-trivial phase is "
+                   "restricted / decomposed 1..3 times (well-formed subsets, exact partitions) and THEN the same PauliList object is "
+                   "expanded (interleave / transform finals); the expansion is compared with the model and judged against the observables "
+                   "as the caller built them, so an earlier use that alters its argument (e.g. zeroes the phase in place) is a failing input.",
         level_note=STD_NOTE + "No axioms. The source-shape fact (tools/facts_c17.py) pins, statement by statement, the lines the model "
                    "mirrors (no phase argument in the restriction, `!=` count guard on num_qubits, CircuitError handler, result width "
                    "final_circuit.num_qubits, copied phase vector); it is a syntactic tie, not a semantics of Python.",
